@@ -398,6 +398,10 @@ def _supports(xc, yc, zcards, tier):
         out.append(frozenset({(x, y, z) for z in zs for x in range(1, xc) for y in range(yc)}))  # every stratum has a single X state
         if len(zs) > 2:
             out.append(frozenset({(x, y, zs[1]) for x in range(xc) for y in range(yc)}))          # a stratum that never occurs
+    if xc >= 3:
+        out.append(frozenset({(1, y, zl) for y in range(yc)}))             # the MIDDLE state of X missing in a stratum (labels with a gap there)
+    if yc >= 3:
+        out.append(frozenset({(x, 1, z0) for x in range(xc)}))             # the middle state of Y missing in a stratum
     if tier == "thorough":
         out.append(frozenset({(0, 0, z0), (xc - 1, yc - 1, zl)}))
         out.append(frozenset({(x, yc - 1, z0) for x in range(xc)}))
@@ -426,7 +430,7 @@ def scenarios(tier, seed):
                     # rotate tests over support patterns; the Pearson family everywhere
                     if (k + seed) % 4 and not (test == "chi_square" and si % 2 == 0):
                         continue
-                for dt in (["int", "cat", "str"] if (si + ti) % 5 == 0 else ["int"]):
+                for dt in (["int", "cat", "str", "gap"] if (si + ti) % 5 == 0 else (["gap"] if (si + ti) % 5 == 2 else ["int"])):
                     out.append(dict(family=f"discrete/{test}", mode="discrete", test=test, lam=lam, xc=xc, yc=yc, zc=zc, absent=[list(map(_jsonable, a)) for a in absent],
                                     dtype=dt, indep=False, hashseed=k % 2, budget_s=40 if tier == "quick" else 300,
                                     max_paths=(60 if tier == "quick" else 700), cost=5 ** len(zs_of(zc))))
@@ -471,6 +475,8 @@ def _jsonable(a):
 def _label(dt, var, i):
     if dt == "str":
         return f"{var.lower()}{i}"
+    if dt == "gap":      # integer labels that are not consecutive
+        return [1, 5, 10, 11][i]
     return i
 
 
